@@ -100,6 +100,14 @@ func RegisterDirective(d Directive) {
 	Directives[d.Name()] = d
 }
 
+// replaceDirective replaces the line holding exactly the directive raw by new.
+// A directive whose line starts like another one (one more argument, a longer
+// value) is a different directive and must be left alone.
+func replaceDirective(profile string, raw string, new string) string {
+	reg := regexp.MustCompile(`(?m)^` + regexp.QuoteMeta(raw) + `$`)
+	return reg.ReplaceAllLiteralString(profile, new)
+}
+
 func Run(file *paths.Path, profile string) (string, error) {
 	var err error
 
